@@ -47,7 +47,15 @@ def main():
                        'with_failing_input': any('no-failing-input-found' not in l for l in lines),
                        'seconds': round(time.time() - t0, 1), 'tail': r.stdout[-600:]}
             res['head'] = sh('git -C /repo rev-parse --short HEAD').stdout.strip()
-            json.dump(res, open(os.path.join(d, 'result.json'), 'w'), indent=1)
+            rp = os.path.join(d, 'result.json')
+            if not res.get('applied') and os.path.exists(rp):
+                # the patch was written against an earlier HEAD and no longer applies: keep the record of the last run
+                # that did apply, and note that it is stale
+                old = json.load(open(rp))
+                if old.get('applied'):
+                    old['no_longer_applies_at'] = res['head']
+                    res = old
+            json.dump(res, open(rp, 'w'), indent=1)
             summary.append((sid, prop, res.get('detected'), res.get('with_failing_input')))
             print(sid, prop, 'detected=%s failing_input=%s' % (res.get('detected'), res.get('with_failing_input')), flush=True)
         finally:
